@@ -397,6 +397,10 @@ impl<'a> AllVrpMetrics<'a> {
         requires
             tal_index < old(metrics).tals@.len(),
             repo_index matches Some(i) ==> i < old(metrics).repositories@.len(),
+        ensures
+            // whatever is done through the returned counter borrows, the lists keep their lengths
+            final(metrics).tals@.len() == old(metrics).tals@.len(),
+            final(metrics).repositories@.len() == old(metrics).repositories@.len(),
     { unimplemented!() }
 }
 
@@ -432,6 +436,7 @@ pub uninterp spec fn pushed<T>(q: &SegQueue<T>, item: T) -> bool;
 // precondition grants it. It gives `&self` pushes a negative frame ("nothing
 // else is pushed"), which a monotone fact alone cannot express.
 pub uninterp spec fn push_allowed<T>(q: &SegQueue<T>, item: T) -> bool;
+pub uninterp spec fn observed_empty<T>(q: &SegQueue<T>) -> bool;
 impl<T> SegQueue<T> {
     #[verifier::external_body]
     pub fn push(&self, item: T)
@@ -439,10 +444,12 @@ impl<T> SegQueue<T> {
         ensures pushed(self, item),
     { unimplemented!() }
 
-    // ASSUMED: only pushed items are popped
+    // ASSUMED: only pushed items are popped; `observed_empty(q)` is a monotone fact:
+    // a pop on q returned None (q has been drained by its owner)
     #[verifier::external_body]
     pub fn pop(&self) -> (r: Option<T>)
         ensures r matches Some(x) ==> pushed(self, x),
+                r is None ==> observed_empty(self),
     { unimplemented!() }
 }
 
@@ -941,3 +948,49 @@ impl Clone for ProviderAsns {
     fn clone(&self) -> (r: Self) ensures r == *self,
     { unimplemented!() }
 }
+
+impl<T> Default for SegQueue<T> {
+    #[verifier::external_body]
+    fn default() -> SegQueue<T> { unimplemented!() }
+}
+
+// ---- crate::config::Config: only the fields ValidationReport::new reads (the real
+// struct has some 60 fields of many types; it is declared here, not extracted)
+pub struct Config {
+    pub unsafe_vrps: FilterPolicy,
+    pub enable_bgpsec: bool,
+    pub enable_aspa: bool,
+    pub limit_v4_len: Option<u8>,
+    pub limit_v6_len: Option<u8>,
+    pub log_level: LevelFilter,
+}
+// log::LevelFilter, ordered Off < Error < Warn < Info < Debug < Trace
+#[derive(Clone, Copy)]
+pub enum LevelFilter { Off, Error, Warn, Info, Debug, Trace }
+pub open spec fn level_rank(l: LevelFilter) -> int {
+    match l { LevelFilter::Off => 0, LevelFilter::Error => 1, LevelFilter::Warn => 2,
+              LevelFilter::Info => 3, LevelFilter::Debug => 4, LevelFilter::Trace => 5 }
+}
+impl PartialEqSpecImpl for LevelFilter {
+    open spec fn obeys_eq_spec() -> bool { true }
+    open spec fn eq_spec(&self, other: &LevelFilter) -> bool { *self == *other }
+}
+impl PartialEq for LevelFilter {
+    #[verifier::external_body]
+    fn eq(&self, other: &Self) -> bool { unimplemented!() }
+}
+impl PartialOrdSpecImpl for LevelFilter {
+    open spec fn obeys_partial_cmp_spec() -> bool { true }
+    open spec fn partial_cmp_spec(&self, other: &LevelFilter) -> Option<Ordering> {
+        if level_rank(*self) < level_rank(*other) { Some(Ordering::Less) }
+        else if level_rank(*self) == level_rank(*other) { Some(Ordering::Equal) } else { Some(Ordering::Greater) }
+    }
+}
+impl PartialOrd for LevelFilter {
+    #[verifier::external_body]
+    fn partial_cmp(&self, other: &LevelFilter) -> Option<Ordering> { unimplemented!() }
+}
+
+// ---- crate::payload::PayloadSnapshot: the served data set. `built_under` is the ghost
+// record of the unsafe-VRP filter state (rejected resources, policy) it was built under.
+#[verifier::external_body] pub struct PayloadSnapshot { _opaque: () }
